@@ -1438,3 +1438,146 @@ theorem C03_hier_logn_end_to_end (nMech : Nat) (ems : List EM) (inds : Nat → I
     (C03_hier_upstream_is_gradient nMech ems inds nIds (etaOf nDim z) hlen hsm hsupp) j hj
 
 end ChiModel
+
+/-! ## a mechanistic model that refuses the point: evaluation with sensitivities reports a non-finite score
+wherever plain evaluation does (individual, posterior and hierarchical level; model in `ChiModel/LogLikS1.lean`,
+namespace `Guarded`) -/
+namespace ChiModel
+namespace Guarded
+section generic
+variable {α : Type} [Add α] [Sub α] [Mul α] [Div α] [Neg α] [ScalarFns α]
+
+theorem isVal_add (a b : Score α) : isVal (Score.add a b) = (isVal a && isVal b) := by
+  cases a <;> cases b <;> rfl
+
+theorem isVal_foldl (f : Sim α → Score α) (l : List (Sim α)) (acc : Score α) :
+    isVal (l.foldl (fun acc s => Score.add acc (f s)) acc) = (isVal acc && l.all (fun s => isVal (f s))) := by
+  induction l generalizing acc with
+  | nil => simp
+  | cons x xs ih => simp [ih, isVal_add, Bool.and_assoc]
+
+theorem C03_guarded_ll_score (nPar : Nat) (g : List α) (sim : Sim α) : (llS1 nPar g sim).1 = llCall sim := by
+  cases sim <;> rfl
+
+theorem C03_guarded_ll_raises (nPar : Nat) (g : List α) :
+    llCall (Sim.raises : Sim α) = .negInf ∧ (llS1 nPar g Sim.raises).1 = .negInf
+      ∧ (llS1 nPar g Sim.raises).2.length = nPar := ⟨rfl, rfl, rfl⟩
+
+theorem C03_guarded_ll_gradient_length (nPar : Nat) (g : List α) (sim : Sim α) (hg : g.length = nPar) :
+    (llS1 nPar g sim).2.length = nPar := by
+  cases sim
+  · rfl
+  · exact hg
+
+theorem C03_guarded_hier_finite_iff (nPar : Nat) (g : List α) (pop : Score α) (inds : List (Sim α)) :
+    isVal (hierS1 nPar g pop inds) = isVal (hierCall pop inds) := by
+  have hf : (fun (acc : Score α) (s : Sim α) => Score.add acc (llS1 nPar g s).1)
+      = (fun acc s => Score.add acc (llCall s)) := by
+    funext acc s; rw [C03_guarded_ll_score]
+  unfold hierS1 hierCall
+  rw [hf, isVal_add, isVal_foldl]
+  cases pop
+  · simp [isVal]
+  · rw [isVal_foldl]; simp [isVal, Score.zero, Bool.and_comm]
+  · rw [isVal_foldl]; simp [isVal]
+
+theorem C03_guarded_hier_raises (nPar : Nat) (g : List α) (pop : Score α) (inds : List (Sim α))
+    (h : Sim.raises ∈ inds) :
+    isVal (hierCall pop inds) = false ∧ isVal (hierS1 nPar g pop inds) = false := by
+  have hc : isVal (hierCall pop inds) = false := by
+    unfold hierCall
+    cases pop
+    · rfl
+    · rw [isVal_foldl]
+      have : inds.all (fun s => isVal (llCall s)) = false := by
+        rw [List.all_eq_false]; exact ⟨_, h, by simp [llCall, isVal]⟩
+      simp [this]
+    · rw [isVal_foldl]; simp [isVal]
+  exact ⟨hc, by rw [C03_guarded_hier_finite_iff, hc]⟩
+
+theorem C03_guarded_prior_finite_iff (prior : Score α) (ll ll' : Unit → Score α)
+    (h : isVal (ll ()) = isVal (ll' ())) : isVal (withPrior prior ll) = isVal (withPrior prior ll') := by
+  cases prior <;> simp [withPrior, isVal_add, h]
+
+end generic
+
+theorem foldl_val_shift (f : Sim ℝ → Score ℝ) (l : List (Sim ℝ)) (a b v : ℝ)
+    (h : l.foldl (fun acc s => Score.add acc (f s)) (.val a) = .val v) :
+    l.foldl (fun acc s => Score.add acc (f s)) (.val b) = .val (v - a + b) := by
+  induction l generalizing a b v with
+  | nil => simp at h; simp [h]
+  | cons x xs ih =>
+    simp only [List.foldl_cons] at h ⊢
+    cases hx : f x with
+    | val c =>
+      rw [hx] at h
+      have ea : Score.add (Score.val a) (Score.val c) = Score.val (a + c) := rfl
+      have eb : Score.add (Score.val b) (Score.val c) = Score.val (b + c) := rfl
+      rw [ea] at h
+      rw [eb, ih (a + c) (b + c) v h]; congr 1; ring
+    | negInf =>
+      rw [hx] at h
+      have := congrArg isVal h
+      rw [isVal_foldl] at this; simp [Score.add, isVal] at this
+    | undefined =>
+      rw [hx] at h
+      have := congrArg isVal h
+      rw [isVal_foldl] at this; simp [Score.add, isVal] at this
+
+/-- wherever plain evaluation yields a finite score, evaluateS1 reports that score -/
+theorem C03_guarded_hier_score_eq (nPar : Nat) (g : List ℝ) (pop : Score ℝ) (inds : List (Sim ℝ)) (v : ℝ)
+    (h : hierCall pop inds = .val v) : hierS1 nPar g pop inds = .val v := by
+  have hf : (fun (acc : Score ℝ) (s : Sim ℝ) => Score.add acc (llS1 nPar g s).1)
+      = (fun acc s => Score.add acc (llCall s)) := by
+    funext acc s; rw [C03_guarded_ll_score]
+  unfold hierS1; rw [hf]
+  unfold hierCall at h
+  cases pop with
+  | negInf => simp at h
+  | undefined =>
+    have := congrArg isVal h
+    rw [isVal_foldl] at this; simp [isVal] at this
+  | val p =>
+    simp only at h
+    have := foldl_val_shift llCall inds p 0 v h
+    simp only [Score.zero, ofNat_real, Nat.cast_zero]
+    rw [this]; simp [Score.add]
+
+end Guarded
+end ChiModel
+
+namespace ChiModel
+namespace Guarded
+/-- with a prior in front (`LogPosterior`, `HierarchicalLogPosterior`): the two kinds of evaluation of a
+    hierarchical likelihood with refusing individuals are finite together -/
+theorem C03_guarded_hier_posterior_finite_iff {α : Type} [Add α] [Sub α] [Mul α] [Div α] [Neg α] [ScalarFns α]
+    (nPar : Nat) (g : List α) (prior pop : Score α) (inds : List (Sim α)) :
+    isVal (withPrior prior (fun _ => hierS1 nPar g pop inds))
+      = isVal (withPrior prior (fun _ => hierCall pop inds)) :=
+  C03_guarded_prior_finite_iff prior _ _ (C03_guarded_hier_finite_iff nPar g pop inds)
+
+/-- … and where the plain evaluation is finite, the scores are the same number -/
+theorem C03_guarded_hier_posterior_score_eq (nPar : Nat) (g : List ℝ) (prior pop : Score ℝ)
+    (inds : List (Sim ℝ)) (v : ℝ) (h : withPrior prior (fun _ => hierCall pop inds) = .val v) :
+    withPrior prior (fun _ => hierS1 nPar g pop inds) = .val v := by
+  cases prior with
+  | negInf => simp [withPrior] at h
+  | undefined => simp [withPrior, Score.add] at h
+  | val p =>
+    simp only [withPrior] at h ⊢
+    cases hc : hierCall pop inds with
+    | negInf => rw [hc] at h; simp [Score.add] at h
+    | undefined => rw [hc] at h; simp [Score.add] at h
+    | val c => rw [C03_guarded_hier_score_eq nPar g pop inds c hc]; rw [hc] at h; exact h
+
+/-- non-vacuity: three individuals, the second one's model refuses its parameters — plain evaluation and
+    evaluation with sensitivities both say `-inf`; without the refusal both are finite -/
+example : hierCall (.val (1 : ℝ)) [.delivers (.val 2), .raises, .delivers (.val 3)] = .negInf
+    ∧ hierS1 4 [] (.val (1 : ℝ)) [.delivers (.val 2), .raises, .delivers (.val 3)] = .negInf := by
+  constructor <;> simp [hierCall, hierS1, llCall, llS1, Score.add, Score.zero]
+
+example : hierCall (.val (1 : ℝ)) [.delivers (.val 2), .delivers (.val 3)] = .val 6
+    ∧ hierS1 4 [] (.val (1 : ℝ)) [.delivers (.val 2), .delivers (.val 3)] = .val 6 := by
+  constructor <;> simp [hierCall, hierS1, llCall, llS1, Score.add, Score.zero] <;> norm_num
+end Guarded
+end ChiModel
